@@ -12,8 +12,17 @@
 //! All field elements travel as hex strings ("0x...").
 use serde_json::{json, Value};
 use starknet_crypto::Felt;
-use std::io::Read;
+use std::cell::RefCell;
+use std::io::{BufRead, Read, Write};
 use std::panic::{catch_unwind, AssertUnwindSafe};
+
+mod ext;
+mod toy;
+
+thread_local! {
+    /// (file, line) of the last panic, recorded by the panic hook
+    static PANIC_LOC: RefCell<Option<(String, u32)>> = RefCell::new(None);
+}
 
 type R<T> = Result<T, String>;
 
@@ -284,11 +293,15 @@ fn dispatch(req: &Value) -> R<Result<Value, String>> {
         "layout_consts" | "eval_composition_polynomial_inner" | "eval_oods_polynomial_inner" => {
             layout_call(req, func).map(Ok)
         }
-        f => Err(format!("unknown fn {f}")),
+        f => match ext::dispatch(req, f) {
+            Some(r) => r,
+            None => Err(format!("unknown fn {f}")),
+        },
     }
 }
 
 fn handle(req: &Value) -> Value {
+    PANIC_LOC.with(|l| *l.borrow_mut() = None);
     let r = catch_unwind(AssertUnwindSafe(|| dispatch(req)));
     match r {
         Ok(Ok(Ok(v))) => json!({ "ok": v }),
@@ -302,14 +315,44 @@ fn handle(req: &Value) -> Value {
             } else {
                 "non-string panic payload".to_string()
             };
-            json!({ "panic": msg })
+            let loc = PANIC_LOC.with(|l| l.borrow().clone());
+            match loc {
+                Some((f, l)) => json!({ "panic": msg, "file": f, "line": l }),
+                None => json!({ "panic": msg }),
+            }
         }
     }
 }
 
 fn main() {
     // Panics are reported in the JSON answer; keep stderr quiet.
-    std::panic::set_hook(Box::new(|_| {}));
+    std::panic::set_hook(Box::new(|info| {
+        if let Some(l) = info.location() {
+            PANIC_LOC.with(|p| *p.borrow_mut() = Some((l.file().to_string(), l.line())));
+        }
+    }));
+    if std::env::args().any(|a| a == "--serve") {
+        // line oriented server: one JSON request per line, one JSON answer per line
+        let stdin = std::io::stdin();
+        let stdout = std::io::stdout();
+        for line in stdin.lock().lines() {
+            let line = match line {
+                Ok(l) => l,
+                Err(_) => break,
+            };
+            if line.trim().is_empty() {
+                continue;
+            }
+            let out = match serde_json::from_str::<Value>(&line) {
+                Ok(v) => handle(&v),
+                Err(e) => json!({"bad_request": format!("json: {e}")}),
+            };
+            let mut o = stdout.lock();
+            let _ = writeln!(o, "{}", out);
+            let _ = o.flush();
+        }
+        return;
+    }
     let mut input = String::new();
     std::io::stdin().read_to_string(&mut input).expect("read stdin");
     let req: Value = match serde_json::from_str(&input) {
